@@ -12,7 +12,7 @@ CLASSES = {
 }
 TRUSTED = ["A-nx-graph (DiGraph: G.edges(n) yields the out-arcs of n only; in_edges/out_edges)", "A-builtins"]
 ASSUMPTIONS = ["the bipartite view has no self-loops (a reaction node is never a species node)",
-               "_minimal_sets / find_siphons / find_traps (enumeration of all subsets) and BFS completeness are bounded only"]
+               "find_siphons / find_traps (enumeration of all subsets with itertools.combinations) and BFS completeness are bounded only; the minimality filter _minimal_sets is proved"]
 NOT_APPLICABLE_CLAUSES = []
 
 
@@ -50,6 +50,10 @@ def view_ok(G, reaction_nodes, species_nodes_sorted, S_idx):
         and forall(reaction_nodes, lambda r: not G.has_edge(r, r)) \
         and forall(reaction_nodes, lambda r: forall(G.edges, lambda a, b: implies(a == r, G[a][b].get("role") != "reactant")
                                                     and implies(b == r, G[a][b].get("role") != "product")))
+
+
+def subset(a, b):
+    return forall(a, lambda x: x in b)
 
 
 FUNCTIONS = {
@@ -150,5 +154,23 @@ FUNCTIONS = {
                      "forall(N._place_index, lambda p: t1[N._place_index[p]] == m1.get(p, 0))",
                      "forall(N._place_index, lambda p: t2[N._place_index[p]] == m2.get(p, 0))", "t1 == t2"],
         "ensures": ["forall(N.places, lambda p: m1.get(p, 0) == m2.get(p, 0))"],
+    },
+    # the minimality filter used by find_siphons / find_traps: the result consists of candidates, every candidate contains a kept set, and no kept
+    # set contains another one -- i.e. the result is exactly the family of inclusion-minimal candidates (duplicates removed)
+    ST + "::_minimal_sets": {
+        "params": {"candidates": "list[set[int]]"},
+        "vars": {"out": "list[set[int]]"},
+        "returns": "list[set[int]]",
+        "modifies": [],
+        "ensures": [
+            "forall(range(len(result)), lambda a: exists(range(len(candidates)), lambda c: result[a] == candidates[c]))",
+            "forall(range(len(candidates)), lambda c: exists(range(len(result)), lambda a: subset(result[a], candidates[c])))",
+            "forall((range(len(result)), range(len(result))), lambda a, b: implies(a != b, not subset(result[a], result[b])))",
+        ],
+        "loops": {1: {"inv": [
+            "forall(range(len(out)), lambda a: exists(range(done), lambda c: out[a] == candidates[c]))",
+            "forall(range(done), lambda c: exists(range(len(out)), lambda a: subset(out[a], candidates[c])))",
+            "forall((range(len(out)), range(len(out))), lambda a, b: implies(a != b, not subset(out[a], out[b])))",
+        ]}},
     },
 }
